@@ -238,3 +238,145 @@ pub fn run_cfg_spaces(ctx: &mut Ctx, spaces: Vec<CfgSpace>, f: impl Fn(&Pkt, u64
         });
     }
 }
+
+// ---------------------------------------------------------------------------------------------
+// Iterator call histories
+
+/// The operations of an iterator call history.
+const IT_OPS: [&str; 6] = ["next()", "nth(0)", "nth(1)", "nth(2)", "nth(7)", "by_ref().take(2).count()"];
+/// How a history ends (on what is left of the iterator).
+const IT_ENDS: [&str; 4] = ["collect()", "count()", "last()", "nth(remaining)"];
+
+/// Number of (history, ending) pairs explored by `iterator_histories` for a given depth.
+pub fn iterator_history_count(depth: u32) -> u64 {
+    crate::engine::space::seq_count(IT_OPS.len() as u64, depth) * IT_ENDS.len() as u64
+}
+
+/// All call histories of length <= `depth` over {next, nth(0), nth(1), nth(2), nth(7), by_ref().take(2).count()} on
+/// a fresh iterator from `mk`, each finished by one of {collect, count, last, nth(remaining)}, stepped in lock-step
+/// with the obvious model: a cursor into the item list that plain `next()` calls produce (`reference`, already
+/// compared with the RFC reading by the caller). `nth`, `count`, `last` are methods an iterator may override;
+/// an override must agree with repeated `next()`. A history is followed only until the model says the
+/// iterator is exhausted (what an iterator answers after its first `None` is pinned for `Compound` only,
+/// by C11). Items are compared by the fingerprint of their `Debug` rendering.
+pub fn iterator_histories<I, T>(l: &mut Local, site: &str, mk: &dyn Fn() -> I, reference: &[u64], depth: u32, show: &dyn Fn() -> String)
+where
+    I: Iterator<Item = T>,
+    T: std::fmt::Debug,
+{
+    use crate::engine::run::fp_debug;
+    use crate::engine::space::{seq_count, seq_decode};
+    let nops = IT_OPS.len() as u64;
+    let n = reference.len();
+    for h in 0..seq_count(nops, depth) {
+        let seq = seq_decode(nops, h);
+        for (ei, end) in IT_ENDS.iter().enumerate() {
+            l.states += 1;
+            let r = guard::catch(|| {
+                let mut it = mk();
+                let mut cur = 0usize; // model: cursor into `reference`
+                let describe = |upto: usize, end: Option<&str>| {
+                    let mut d = String::from("it");
+                    for &op in &seq[..upto] {
+                        d.push_str(&format!(".{}", IT_OPS[op as usize]));
+                    }
+                    if let Some(e) = end {
+                        d.push_str(&format!(" then .{}", e));
+                    }
+                    d
+                };
+                for (k, &op) in seq.iter().enumerate() {
+                    if cur >= n {
+                        return Ok(()); // exhausted in the model: the rest of the history is not pinned
+                    }
+                    let (got, want): (Option<u64>, Option<u64>) = match op {
+                        0 => {
+                            let g = it.next().map(|x| fp_debug(&x));
+                            let w = reference.get(cur).copied();
+                            cur += 1;
+                            (g, w)
+                        }
+                        1..=4 => {
+                            let skip = [0usize, 1, 2, 7][(op - 1) as usize];
+                            let g = it.nth(skip).map(|x| fp_debug(&x));
+                            let w = reference.get(cur + skip).copied();
+                            cur = (cur + skip + 1).min(n + 1);
+                            (g, w)
+                        }
+                        _ => {
+                            let g = it.by_ref().take(2).count() as u64;
+                            let w = (n - cur).min(2) as u64;
+                            cur += 2;
+                            (Some(g), Some(w))
+                        }
+                    };
+                    if got != want {
+                        return Err(format!("after {} the {}-th call answers {} where repeated next() gives {} (item {} of {})", describe(k, None), k + 1, if got.is_some() { "an item (or count) that differs" } else { "None" }, if want.is_some() { "another item" } else { "None" }, cur, n));
+                    }
+                    if cur > n {
+                        return Ok(());
+                    }
+                }
+                if cur > n {
+                    return Ok(());
+                }
+                let rest = &reference[cur.min(n)..];
+                let ok = match ei {
+                    0 => {
+                        let mut v = Vec::new();
+                        for x in it {
+                            if v.len() > n + 2 {
+                                break;
+                            }
+                            v.push(fp_debug(&x));
+                        }
+                        v == rest
+                    }
+                    1 => it.count() == rest.len(),
+                    2 => it.last().map(|x| fp_debug(&x)) == rest.last().copied(),
+                    _ => {
+                        if rest.is_empty() {
+                            true
+                        } else {
+                            it.nth(rest.len() - 1).map(|x| fp_debug(&x)) == rest.last().copied()
+                        }
+                    }
+                };
+                if ok {
+                    Ok(())
+                } else {
+                    Err(format!("{} disagrees with what repeated next() yields from item {} of {}", describe(seq.len(), Some(end)), cur, n))
+                }
+            });
+            l.transitions += seq.len() as u64 + 1;
+            l.validated += 1;
+            match r {
+                Err(pi) => {
+                    l.subject_panic(&format!("iterator-history:{}", site), &pi, show);
+                    return;
+                }
+                Ok(Ok(())) => l.hit("iterator history agrees with repeated next()"),
+                Ok(Err(msg)) => {
+                    l.violation(format!("iterator-history-differs:{}", site), show, || msg);
+                    return;
+                }
+            }
+        }
+    }
+}
+
+/// The reference item list of `iterator_histories`: fingerprints of what plain `next()` calls yield (capped).
+pub fn iterator_reference<I, T>(it: I, cap: usize) -> Vec<u64>
+where
+    I: Iterator<Item = T>,
+    T: std::fmt::Debug,
+{
+    let mut v = Vec::new();
+    for x in it {
+        if v.len() >= cap {
+            break;
+        }
+        v.push(crate::engine::run::fp_debug(&x));
+    }
+    v
+}
